@@ -21,6 +21,7 @@ import (
 type lookupGen struct {
 	Pool   []string
 	Paths  []string
+	Hosts  []string // request hosts; only the first one is used for tables without hostname patterns
 	MaxTab int
 	EnumN  int     // the first EnumN patterns of the pool are combined exhaustively
 	Extra  [][]int // tables larger than MaxTab, as 1-based pool indices
@@ -32,6 +33,11 @@ func (g *lookupGen) tla() string {
 	b.WriteString("---- MODULE Gen_Lookup ----\n")
 	b.WriteString("GenPool == " + tlaSeqOfChars(g.Pool) + "\n")
 	b.WriteString("GenPaths == " + tlaSeqOfChars(g.Paths) + "\n")
+	hosts := g.Hosts
+	if len(hosts) == 0 {
+		hosts = []string{"a.b"}
+	}
+	b.WriteString("GenHosts == " + tlaSeqOfChars(hosts) + "\n")
 	fmt.Fprintf(&b, "GenMaxTab == %d\nGenEnumN == %d\n", g.MaxTab, g.EnumN)
 	var ex []string
 	for _, t := range g.Extra {
@@ -47,7 +53,10 @@ func (g *lookupGen) tla() string {
 	return b.String()
 }
 
-var lookupFixes = []string{"F1", "F3", "F4", "F5", "F6", "F16"}
+var lookupFixes = []string{"F1", "F2", "F3", "F4", "F5", "F6", "F16"}
+
+// which mode of the model (path tables, hostname tables) reaches the shape a repair is about
+var lookupFixMode = map[string]string{"F1": "both", "F2": "host", "F3": "path", "F4": "path", "F5": "path", "F6": "path", "F16": "path"}
 
 // the shapes behind the repaired defects and the seeded changes, over the alphabet {a, b}
 var lookupCorePool = []string{
@@ -107,38 +116,111 @@ func newLookupGen(r *Run, rng *rand.Rand, extraRandom, maxTab, pathLen int) *loo
 	return g
 }
 
-func runLookupModel(r *Run) {
-	rng := rand.New(rand.NewSource(r.Seed + 4242))
-	g := newLookupGen(r, rng, pick(r, 3, 6), 3, pick(r, 5, 6))
-	res := r.runTLC(tlcOpts{Module: "MC_Lookup", Gen: map[string]string{"Gen_Lookup.tla": g.tla()}, Timeout: pick(r, 10*time.Minute, 60*time.Minute)})
+// hostname mode: hostname patterns over {a, b, ab} labels above short path patterns
+var lookupHostPool = []string{
+	"a.b/", "a.b/a", "{h}.b/a", "a.{g}/", "{h}.{g}/a", "a.b.ab/", "a{h}.b/", "{h}/a", "/a", "/", "/{x}", "a.b/{x}", "a.b/a/", "{h}.b/{x}/",
+}
+var lookupHosts = []string{"a.b", "a.ab", "a.b.ab", "b.b", "ab.b", "a", "a.bb", "a.b.", "a..b", "b.a.b", "aa.b", "a.b.a"}
+
+func newLookupHostGen(r *Run, rng *rand.Rand, extraRandom, maxTab, pathLen int) *lookupGen {
+	g := &lookupGen{MaxTab: maxTab, Fixes: lookupFixes, Hosts: slices.Clone(lookupHosts)}
+	g.Pool = slices.Clone(lookupHostPool)
+	idx := map[string]int{}
+	for i, p := range g.Pool {
+		idx[p] = i + 1
+	}
+	add := func(p string) int {
+		if i, ok := idx[p]; ok {
+			return i
+		}
+		g.Pool = append(g.Pool, p)
+		idx[p] = len(g.Pool)
+		return len(g.Pool)
+	}
+	for tries := 0; extraRandom > 0 && tries < 200; tries++ {
+		p := genPattern(rng, true, 2)
+		if _, ok := idx[p]; ok {
+			continue
+		}
+		add(p)
+		extraRandom--
+	}
+	g.EnumN = len(g.Pool)
+	for _, t := range awkwardTables {
+		if slices.ContainsFunc(t, func(p string) bool { return !strings.HasPrefix(p, "/") }) {
+			var ids []int
+			for _, p := range t {
+				ids = append(ids, add(p))
+			}
+			g.Extra = append(g.Extra, ids)
+		}
+	}
+	for _, h := range awkwardHosts {
+		if !slices.Contains(g.Hosts, h) {
+			g.Hosts = append(g.Hosts, h)
+		}
+	}
+	// hosts that instantiate the pool's hostname patterns
+	for _, p := range g.Pool {
+		if i := strings.IndexByte(p, '/'); i > 0 {
+			h := instantiatePattern(rng, p[:i], []string{"a", "b", "ab"})
+			if !slices.Contains(g.Hosts, h) && len(g.Hosts) < 30 {
+				g.Hosts = append(g.Hosts, h)
+			}
+		}
+	}
+	g.Paths = allPaths("ab/", pathLen)
+	g.Paths = append(g.Paths, "/a/b/a", "/ab/b/", "/a/b/")
+	slices.Sort(g.Paths)
+	g.Paths = slices.Compact(g.Paths)
+	return g
+}
+
+func runLookupTLC(r *Run, g *lookupGen, tag string) {
+	res := r.runTLC(tlcOpts{Module: "MC_Lookup", Tag: tag, Gen: map[string]string{"Gen_Lookup.tla": g.tla()}, Timeout: pick(r, 10*time.Minute, 60*time.Minute)})
 	if strings.Contains(res.Output, "walk and reference disagree") {
 		failTool("MC_Lookup: the node-level walk and the reference matcher of the specification disagree (a defect of the specification, not a verdict about fox):\n%s", tail(res.Output, 30))
 	}
-	res.mustClean("MC_Lookup")
-	r.addCov("lookup_model_tables", res.Distinct/2)
-	r.addCov("lookup_model_paths_per_table", int64(len(g.Paths)))
-	r.addCov("lookup_model_comparisons", res.Distinct/2*int64(len(g.Paths)))
+	res.mustClean("MC_Lookup" + tag)
+	r.addCov("lookup_model_tables"+tag, res.Distinct/2)
+	r.addCov("lookup_model_requests_per_table"+tag, int64(len(g.Paths)*max(1, len(g.Hosts))))
+}
+
+func runLookupModel(r *Run) {
+	rng := rand.New(rand.NewSource(r.Seed + 4242))
+	g := newLookupGen(r, rng, pick(r, 3, 6), 3, pick(r, 5, 6))
+	runLookupTLC(r, g, "")
+	gh := newLookupHostGen(r, rng, pick(r, 2, 4), 3, pick(r, 3, 4))
+	runLookupTLC(r, gh, "-host")
 	if !r.quick() {
-		lookupNegativeRuns(r, g)
+		lookupNegativeRuns(r, g, gh)
 	}
 }
 
 // lookupNegativeRuns: with one repair switched off the model checker must find a disagreement.
-func lookupNegativeRuns(r *Run, g *lookupGen) []string {
+func lookupNegativeRuns(r *Run, g, gh *lookupGen) []string {
 	var missed []string
 	for _, off := range lookupFixes {
-		h := *g
-		h.Fixes = nil
-		for _, f := range lookupFixes {
-			if f != off {
-				h.Fixes = append(h.Fixes, f)
+		for _, mode := range []string{"path", "host"} {
+			if m := lookupFixMode[off]; m != "both" && m != mode {
+				continue
 			}
-		}
-		res := r.runTLC(tlcOpts{Module: "MC_Lookup", Tag: "-without-" + off, Gen: map[string]string{"Gen_Lookup.tla": h.tla()}, Timeout: 30 * time.Minute})
-		if strings.Contains(res.Output, "walk and reference disagree") {
-			r.addCov("lookup_model_defects_reproduced", 1)
-		} else {
-			missed = append(missed, off)
+			h := *g
+			if mode == "host" {
+				h = *gh
+			}
+			h.Fixes = nil
+			for _, f := range lookupFixes {
+				if f != off {
+					h.Fixes = append(h.Fixes, f)
+				}
+			}
+			res := r.runTLC(tlcOpts{Module: "MC_Lookup", Tag: "-" + mode + "-without-" + off, Gen: map[string]string{"Gen_Lookup.tla": h.tla()}, Timeout: 30 * time.Minute})
+			if strings.Contains(res.Output, "walk and reference disagree") {
+				r.addCov("lookup_model_defects_reproduced", 1)
+			} else {
+				missed = append(missed, off+" ("+mode+" tables)")
+			}
 		}
 	}
 	if len(missed) > 0 {
